@@ -323,7 +323,8 @@ theorem afterTraverse_plain (g : Graph) (s : State) (w next prev : Nat) (dir : D
 (excludes finding F10 and the scope-narrowing configurations) -/
 def FullScope (g : Graph) : Prop :=
   ∀ n, n < g.nodes.length → (g.node n).flat = false →
-    (g.node n).shape = .global ∧ (g.node n).scope.contains "own" = true ∧ (g.node n).scope.contains "shared" = true
+    (g.node n).shape = .global ∧ (g.node n).scope.contains "own" = true ∧ (g.node n).scope.contains "shared" = true ∧
+      (g.node n).scope.contains "swarm" = true ∧ (g.node n).scope.contains "cluster" = true
 
 /-- parsed nodes are ordinary tests: not the shared root, no dry run, no clone source, no object root
 (modelling gaps: the creation of objects and cloning are not covered by the statement) -/
@@ -628,7 +629,7 @@ theorem runDecision_false_src (g : Graph) (hy : SemHyp g) (hO : OwnerNames g) (h
     (p w : Nat) (hp : p < g.nodes.length) (hf : (g.node p).flat = false) (s1 : State) (evs : List Event)
     (h : runDecision g s p w = .ok (false, s1, evs)) : ∀ vs ∈ (g.node p).sets, Src g s p vs := by
   obtain ⟨p1, p2, p3, _⟩ := hy.plainNodes p hp hf
-  obtain ⟨hshape, hown, hshared⟩ := hy.fullScope p hp hf
+  obtain ⟨hshape, hown, hshared, _, _⟩ := hy.fullScope p hp hf
   intro vs hvs
   unfold runDecision at h
   simp only [p1, p2, p3, hf, Bool.false_eq_true, if_false] at h
@@ -1240,5 +1241,77 @@ theorem resumeTest_sem (g : Graph) (H0 : List Nat) (hwf : GraphWF g) (hroot : (g
       · exact hwait
       · refine hcont s false (Upd.refl g H0 w s) j (fun vs _ => ?_)
         exact Or.inr (Or.inr ⟨phOf (g.node n).name tag, mem_sharedResults g s n n _ hn hfl rfl hph, by show "UNKNOWN" ≠ "PASS"; decide⟩)
+
+/-- one scheduler step from a state with the invariants of C03 (`Basic`, `Uids`), `Trv` and `Sem` -/
+theorem resume_sem (g : Graph) (H0 : List Nat) (hwf : GraphWF g) (hroot : (g.node g.root).flat = true)
+    {store0 : List (String × List (String × String))} (sc : SemCtx g store0) (s : State) (w : Nat) (out : Outcome)
+    (fuel : Nat) (b : Basic g s All) (u : Uids g s All) (t : Trv g H0 s) (j : Sem g store0 s) :
+    Sem g store0 (resume g s w out fuel).1 ∧ ∀ e ∈ (resume g s w out fuel).2, StartSem g H0 store0 w e := by
+  have hloop : Sem g store0 (runLoop g w fuel s []).1 ∧ ∀ e ∈ (runLoop g w fuel s []).2, StartSem g H0 store0 w e := by
+    obtain ⟨h1, h2⟩ := runLoop_sem g H0 hwf hroot sc w fuel s [] t j
+    refine ⟨h1, fun e he => ?_⟩
+    rcases h2 e he with he | he
+    · simp at he
+    · exact he
+  unfold resume
+  split
+  · exact hloop
+  · exact hloop
+  · next n ph dir uid tag wait hpc =>
+    obtain ⟨hn, _, hfl, _⟩ := t.pc w n ph dir uid tag wait hpc
+    have hph : ph = .plain :=
+      (b.pcOK w n ph dir uid tag wait trivial hpc).2.2.2.1.mp (sc.hy.plainNodes n hn hfl).2.2.2
+    subst hph
+    exact resumeTest_sem g H0 hwf hroot sc s w n dir uid tag wait out fuel b u t j hpc
+  · exact ⟨j, fun e he => by simp at he⟩
+  · exact ⟨j, fun e he => by simp at he⟩
+
+theorem Sem.init (g : Graph) (ncls : Nat) (store : List (String × List (String × String))) (H0 : List Nat) :
+    Sem g store (initState g ncls store H0) := by
+  refine ⟨fun loc vs h => Or.inl h, fun p _ _ hfin => ?_⟩
+  have : ((initState g ncls store H0).nd p).finished = none := by
+    unfold initState State.nd
+    simp only [List.getD_eq_getElem?_getD, List.getElem?_map]
+    cases g.nodes[p]? <;> rfl
+  rw [this] at hfin
+  cases hfin
+
+/-! ## reachability with real workers and fuel (what the identifier invariant of C03 needs) -/
+
+/-- `ReachH` restricted to steps of workers of the run with positive fuel (= `ReachableR` of `TravResults.lean` with the
+initially hidden set recorded) -/
+inductive ReachS (g : Graph) (ncls : Nat) (store : List (String × List (String × String))) (H0 : List Nat) : State → Prop
+  | init : ReachS g ncls store H0 (initState g ncls store H0)
+  | step (s : State) (w : Nat) (out : Outcome) (fuel : Nat) :
+      ReachS g ncls store H0 s → w < g.workers.length → 0 < fuel → ReachS g ncls store H0 (resume g s w out fuel).1
+
+theorem ReachS.reachH {g : Graph} {ncls : Nat} {store : List (String × List (String × String))} {H0 : List Nat} {s : State}
+    (h : ReachS g ncls store H0 s) : ReachH g ncls store H0 s := by
+  induction h with
+  | init => exact ReachH.init
+  | step s w out fuel _ _ _ ih => exact ReachH.step s w out fuel ih
+
+theorem ReachS.reachR {g : Graph} {ncls : Nat} {store : List (String × List (String × String))} {H0 : List Nat} {s : State}
+    (h : ReachS g ncls store H0 s) : ReachableR g ncls store s := by
+  induction h with
+  | init => exact ReachableR.init H0
+  | step s w out fuel _ hw hf ih => exact ReachableR.step w out fuel ih hw hf
+
+theorem ReachS.sem {g : Graph} (hwf : graphWF g = true) (hroot : (g.node g.root).flat = true) {ncls : Nat}
+    {store : List (String × List (String × String))} (sc : SemCtx g store) (hN : NamesInj g) (hP : PreNamesFresh g)
+    {H0 : List Nat} {s : State} (h : ReachS g ncls store H0 s) : Sem g store s := by
+  induction h with
+  | init => exact Sem.init g ncls store H0
+  | step s w out fuel hs _ _ ih =>
+    exact (resume_sem g H0 (GraphWF.of_bool hwf) hroot sc s w out fuel (hs.reachR.basic hwf) (hs.reachR.uids hwf hN hP)
+      (hs.reachH.trv (GraphWF.of_bool hwf) hroot sc.hO.uniq) ih).1
+
+theorem runSched_reachS (g : Graph) (ncls : Nat) (store : List (String × List (String × String))) (H0 : List Nat) (fuel : Nat)
+    (hf : 0 < fuel) (l : List (Nat × Outcome)) (hl : ∀ p ∈ l, p.1 < g.workers.length) (s : State)
+    (h : ReachS g ncls store H0 s) : ReachS g ncls store H0 (runSched g fuel s l) := by
+  induction l generalizing s with
+  | nil => exact h
+  | cons p l ih =>
+    exact ih (fun q hq => hl q (List.mem_cons_of_mem _ hq)) _ (ReachS.step s p.1 p.2 fuel h (hl p List.mem_cons_self) hf)
 
 end I2N.Trav
